@@ -93,9 +93,9 @@ func c03Profiles(tier Tier) []*explore.Profile {
 		},
 		Menu: func(w *world.World) []world.Action { return gatedCalls(uni.A0) },
 	}
-	depth := 3
+	depth := 4
 	if tier.Thorough() {
-		depth = 4
+		depth = 5
 	}
 	hist := &explore.Profile{
 		Name: "authority", EnvCfg: ledgerEnv(2), Depth: depth, Deadline: tierDeadline(tier), Oracles: orc,
@@ -411,9 +411,9 @@ func c08Profiles(tier Tier) []*explore.Profile {
 			return hopMenu(w, o, uni.S, []int64{1}, false)
 		},
 	}
-	depth := 5
+	depth := 7
 	if tier.Thorough() {
-		depth = 7
+		depth = 9
 	}
 	// routes: chains of hops over all four kinds, destinations holding or not holding the same NFT,
 	// metadata updates between hops
@@ -437,7 +437,7 @@ func c08Profiles(tier Tier) []*explore.Profile {
 	}
 	// two creators (undisciplined system contract): the same (token, nonce) with different hashes
 	two := &explore.Profile{
-		Name: "two-creators", EnvCfg: ledgerEnv(2), Depth: 3, Deadline: tierDeadline(tier), Oracles: orc,
+		Name: "two-creators", EnvCfg: ledgerEnv(2), Depth: depth - 2, Deadline: tierDeadline(tier), Oracles: orc,
 		Seeds: func(env *world.Env) []explore.SeedState {
 			b := uni.SeedBuilder(env, "sft")
 			b.Must(uni.SetRole(uni.E2, uni.S, uni.NFTRoles...))
